@@ -32,7 +32,8 @@ Definition set_val (o : op) (v : str) : op :=
 
 (* Lookup of a Go operationType variable in the generated table. *)
 Definition find_op (name : string) : option opinfo :=
-  List.find (fun oi => str_eqb (oi_var oi) (str_of_string name)) op_table.
+  let n := str_of_string name in
+  List.find (fun oi => str_eqb (oi_var oi) n) op_table.
 
 Definition unknown_op : op := mk_op (str_of_string "?UNKNOWN") [] 0 0 false.
 
